@@ -211,6 +211,9 @@ type Raft struct {
 	// The timestamp representing the time of the last contact by the leader.
 	lastContact time.Time
 
+	// Indicates that this node was stopped and has closed its log and snapshot files.
+	stopped bool
+
 	wg sync.WaitGroup
 
 	mu sync.Mutex
@@ -442,10 +445,13 @@ func (r *Raft) start(restore bool) error {
 		return nil
 	}
 
-	if restore {
+	// A node that was stopped has closed its log, so its state has to be
+	// restored even if Start was called instead of Restart.
+	if restore || r.stopped {
 		if err := r.restore(); err != nil {
 			return fmt.Errorf("could not restore state: %w", err)
 		}
+		r.stopped = false
 	}
 
 	if r.configuration == nil {
@@ -502,6 +508,7 @@ func (r *Raft) Stop() {
 	}
 
 	r.state = Shutdown
+	r.stopped = true
 	r.applyCond.Broadcast()
 	r.commitCond.Broadcast()
 	r.readOnlyCond.Broadcast()
